@@ -4,7 +4,11 @@
 
    A labelled transition system, one label per shared-memory action:
 
-     logging goroutine g   Writef/WriteLog/Trace:  format the entry            LogCall e   (visible: the call begins)
+     any goroutine         rogger.SetLevel(l)                                   SetLevel l  (internal)
+     logging goroutine g   Writef at level l, l below the level now: return     LogFiltered g l (internal; nothing submitted)
+                           Writef at level l, accepted (level checked HERE      LogCallAt e l (visible as the call of e)
+                             and nowhere else); WriteLog/Trace (no level):
+                           format the entry                                     LogCall e   (visible: the call begins)
                                                     logQueue <- v               Enq g       (internal; blocks while the queue is full)
                                                     return                      LogRet e    (visible)
      FlushLogger caller c  call (any number of concurrent callers; each may   FlushCall c (visible)
@@ -38,6 +42,7 @@ Inductive flpc := FNone | FCalled | FRequested | FReturned (done : bool).
 
 Inductive label :=
 | LogCall (e : entry) | Enq (g : N) | LogRet (e : entry)
+| SetLevel (l : N) | LogCallAt (e : entry) (l : N) | LogFiltered (g : N) (l : N)
 | FlushCall (c : N) | Request (c : N) | FlushRet (c : N) (done : bool)
 | PollTake (e : entry) | PollEmpty | InnerTake (e : entry) | InnerSync | DrainTake (e : entry) | DrainDone
 | Write (e : entry).
@@ -53,20 +58,21 @@ Record st := mk {
   hist : list entry;       (* everything enqueued, in queue order *)
   written : list entry;    (* every Write, in order *)
   retd : list entry;       (* entries whose logging call has returned *)
-  pre_req : list entry     (* hist at the moment of the first syncCancel() *)
+  pre_req : list entry;    (* hist at the moment of the first syncCancel() *)
+  lvl : N                  (* the global log level: 0 DEBUG, 1 INFO, 2 WARN, 3 ERROR, 4 OFF *)
 }.
 
 Definition upd {A} (f : N -> A) (g : N) (v : A) : N -> A := fun x => if x =? g then v else f x.
 
 Definition init : st :=
-  mk [] Top false (fun _ => FNone) (fun _ => LIdle) (fun _ => 0) [] [] [] [].
+  mk [] Top false (fun _ => FNone) (fun _ => LIdle) (fun _ => 0) [] [] [] [] 0.
 
 (* a receive: the head of the queue becomes the held entry *)
 Definition take (s : st) (e : entry) (at_pc next : fpc) : option st :=
   match fp s, q s with
   | p, e' :: r =>
       if match p, at_pc with Top, Top | Inner, Inner | Drain, Drain => true | _, _ => false end && entry_eqb e e'
-      then Some (mk r next (req s) (fl s) (lp s) (cnt s) (hist s) (written s) (retd s) (pre_req s))
+      then Some (mk r next (req s) (fl s) (lp s) (cnt s) (hist s) (written s) (retd s) (pre_req s) (lvl s))
       else None
   | _, [] => None
   end.
@@ -78,7 +84,7 @@ Definition gstep (drain : bool) (cap : N) (s : st) (l : label) : option st :=
       match lp s (eg e) with
       | LIdle => if en e =? cnt s (eg e)
                  then Some (mk (q s) (fp s) (req s) (fl s) (upd (lp s) (eg e) (LSending e)) (upd (cnt s) (eg e) (cnt s (eg e) + 1))
-                               (hist s) (written s) (retd s) (pre_req s))
+                               (hist s) (written s) (retd s) (pre_req s) (lvl s))
                  else None
       | _ => None
       end
@@ -86,7 +92,7 @@ Definition gstep (drain : bool) (cap : N) (s : st) (l : label) : option st :=
       match lp s g with
       | LSending e => if N.of_nat (length (q s)) <? cap
                       then Some (mk (q s ++ [e]) (fp s) (req s) (fl s) (upd (lp s) g (LSent e)) (cnt s)
-                                    (hist s ++ [e]) (written s) (retd s) (pre_req s))
+                                    (hist s ++ [e]) (written s) (retd s) (pre_req s) (lvl s))
                       else None
       | _ => None
       end
@@ -94,35 +100,52 @@ Definition gstep (drain : bool) (cap : N) (s : st) (l : label) : option st :=
       match lp s (eg e) with
       | LSent e' => if entry_eqb e e'
                     then Some (mk (q s) (fp s) (req s) (fl s) (upd (lp s) (eg e) LIdle) (cnt s)
-                                  (hist s) (written s) (e' :: retd s) (pre_req s))
+                                  (hist s) (written s) (e' :: retd s) (pre_req s) (lvl s))
                     else None
+      | _ => None
+      end
+  | SetLevel l =>   (* rogger.SetLevel: a plain store to the global level, at any time *)
+      Some (mk (q s) (fp s) (req s) (fl s) (lp s) (cnt s) (hist s) (written s) (retd s) (pre_req s) l)
+  | LogCallAt e l =>   (* Writef at level l: accepted iff l is not below the level NOW; from here on it is LogCall *)
+      if lvl s <=? l then
+        match lp s (eg e) with
+        | LIdle => if en e =? cnt s (eg e)
+                   then Some (mk (q s) (fp s) (req s) (fl s) (upd (lp s) (eg e) (LSending e)) (upd (cnt s) (eg e) (cnt s (eg e) + 1))
+                                 (hist s) (written s) (retd s) (pre_req s) (lvl s))
+                   else None
+        | _ => None
+        end
+      else None
+  | LogFiltered g l =>   (* Writef at a level below the current one: the call returns, nothing is submitted *)
+      match lp s g with
+      | LIdle => if l <? lvl s then Some s else None
       | _ => None
       end
   | FlushCall c =>
       match fl s c with
       | FNone | FReturned _ =>
-          Some (mk (q s) (fp s) (req s) (upd (fl s) c FCalled) (lp s) (cnt s) (hist s) (written s) (retd s) (pre_req s))
+          Some (mk (q s) (fp s) (req s) (upd (fl s) c FCalled) (lp s) (cnt s) (hist s) (written s) (retd s) (pre_req s) (lvl s))
       | _ => None
       end
   | Request c =>
       match fl s c with
       | FCalled =>   (* syncCancel(): only the first one has an effect *)
           Some (mk (q s) (fp s) true (upd (fl s) c FRequested) (lp s) (cnt s) (hist s) (written s) (retd s)
-                   (if req s then pre_req s else hist s))
+                   (if req s then pre_req s else hist s) (lvl s))
       | _ => None
       end
   | FlushRet c b =>
       match fl s c with
       | FRequested =>
           if negb b || match fp s with Done => true | _ => false end
-          then Some (mk (q s) (fp s) (req s) (upd (fl s) c (FReturned b)) (lp s) (cnt s) (hist s) (written s) (retd s) (pre_req s))
+          then Some (mk (q s) (fp s) (req s) (upd (fl s) c (FReturned b)) (lp s) (cnt s) (hist s) (written s) (retd s) (pre_req s) (lvl s))
           else None
       | _ => None
       end
   | PollTake e => take s e Top (HoldT e)
   | PollEmpty =>
       match fp s, q s with
-      | Top, [] => Some (mk [] Inner (req s) (fl s) (lp s) (cnt s) (hist s) (written s) (retd s) (pre_req s))
+      | Top, [] => Some (mk [] Inner (req s) (fl s) (lp s) (cnt s) (hist s) (written s) (retd s) (pre_req s) (lvl s))
       | _, _ => None
       end
   | InnerTake e => take s e Inner (HoldT e)
@@ -130,23 +153,23 @@ Definition gstep (drain : bool) (cap : N) (s : st) (l : label) : option st :=
       match fp s with
       | Inner => if req s
                  then Some (mk (q s) (if drain then Drain else Done) (req s) (fl s) (lp s) (cnt s)
-                               (hist s) (written s) (retd s) (pre_req s))
+                               (hist s) (written s) (retd s) (pre_req s) (lvl s))
                  else None
       | _ => None
       end
   | DrainTake e => take s e Drain (HoldD e)
   | DrainDone =>
       match fp s, q s with
-      | Drain, [] => Some (mk [] Done (req s) (fl s) (lp s) (cnt s) (hist s) (written s) (retd s) (pre_req s))
+      | Drain, [] => Some (mk [] Done (req s) (fl s) (lp s) (cnt s) (hist s) (written s) (retd s) (pre_req s) (lvl s))
       | _, _ => None
       end
   | Write e =>
       match fp s with
       | HoldT e' => if entry_eqb e e'
-                    then Some (mk (q s) Top (req s) (fl s) (lp s) (cnt s) (hist s) (written s ++ [e']) (retd s) (pre_req s))
+                    then Some (mk (q s) Top (req s) (fl s) (lp s) (cnt s) (hist s) (written s ++ [e']) (retd s) (pre_req s) (lvl s))
                     else None
       | HoldD e' => if entry_eqb e e'
-                    then Some (mk (q s) Drain (req s) (fl s) (lp s) (cnt s) (hist s) (written s ++ [e']) (retd s) (pre_req s))
+                    then Some (mk (q s) Drain (req s) (fl s) (lp s) (cnt s) (hist s) (written s ++ [e']) (retd s) (pre_req s) (lvl s))
                     else None
       | _ => None
       end
@@ -180,12 +203,12 @@ Inductive event := ECall (e : entry) | ERet (e : entry) | EWrite (e : entry) | E
 
 Definition vis (l : label) : option event :=
   match l with
-  | LogCall e => Some (ECall e)
+  | LogCall e | LogCallAt e _ => Some (ECall e)
   | LogRet e => Some (ERet e)
   | Write e => Some (EWrite e)
   | FlushCall c => Some (EFlushCall c)
   | FlushRet c b => Some (EFlushRet c b)
-  | Enq _ | Request _ | PollTake _ | PollEmpty | InnerTake _ | InnerSync | DrainTake _ | DrainDone => None
+  | SetLevel _ | LogFiltered _ _ | Enq _ | Request _ | PollTake _ | PollEmpty | InnerTake _ | InnerSync | DrainTake _ | DrainDone => None
   end.
 
 Fixpoint visible (ls : list label) : list event :=
@@ -210,7 +233,7 @@ Fixpoint rets_of (ls : list label) : list entry :=
 Fixpoint calls_of (ls : list label) : list entry :=
   match ls with
   | [] => []
-  | LogCall e :: r => e :: calls_of r
+  | (LogCall e | LogCallAt e _) :: r => e :: calls_of r
   | _ :: r => calls_of r
   end.
 
